@@ -300,6 +300,24 @@ class ExtendedKalmanFilter:
         self.namespace = namespace
         self.header_include = header_include
 
+        # Same structural checks as the Python ExtendedKalmanFilter
+        if len(process_noise) != len(state_model.control):
+            raise ModelConstructionError(
+                f"Process noise needs exactly one entry per control, found {len(process_noise)} entries for {len(state_model.control)} controls"
+            )
+        for key, value in process_noise.items():
+            if not isinstance(key, tuple) and value < 0.0:
+                raise ModelConstructionError(f"Negative process noise for {key}")
+        if set(sensor_models.keys()) != set(sensor_noises.keys()):
+            raise ModelConstructionError(
+                "Sensor noises need to be specified for exactly the sensor models"
+            )
+        for key, sensor_model in sensor_models.items():
+            if {str(k) for k in sensor_model} != {str(k) for k in sensor_noises[key]}:
+                raise ModelConstructionError(
+                    f"Sensor noise for {key} needs exactly one entry per reading"
+                )
+
         # TODO(buck): This is lots of duplication with the model
         self.state_size = len(state_model.state)
         self.calibration_size = len(state_model.calibration)
@@ -840,6 +858,14 @@ def compile(symbolic_model, calibration_map=None, *, config=None):
 
     if calibration_map is None:
         calibration_map = {}
+
+    common.model_validation(
+        symbolic_model,
+        {},
+        {},
+        calibration_map=calibration_map,
+        extra_validation=config.extra_validation,
+    )
 
     args = _compile_argparse()
 
